@@ -407,8 +407,11 @@ func (g *gen) include() *Y {
 	if g.chance(0.2) {
 		kvs = append(kvs, P("aliases", g.strlist()))
 	}
-	if g.chance(0.15) {
-		kvs = append(kvs, P("excludes", g.strlist()))
+	if g.chance(0.3) {
+		// names that the included files do define (default among them), and some that they do not
+		kvs = append(kvs, P("excludes", g.list(1+g.r.Intn(2), func() *Y {
+			return g.d(Str(g.pick([]string{"default", "hello", "build", "test", "only1", "nosuch", "lint"})))
+		})))
 	}
 	if g.chance(0.3) {
 		kvs = append(kvs, P("vars", g.vars()))
@@ -666,4 +669,95 @@ func concurrencyDoc(token string, n int) (*Y, []string) {
 	}
 	tasks = append(tasks, P("all", Map(P("deps", Seq(deps...)), P("cmds", Seq(Str("true"))))))
 	return Map(P("version", Str("3")), P("tasks", Map(tasks...))), calls
+}
+
+// chainTrees: Taskfile.yml -> l1.yml -> ... -> l<depth>.yml, every file with one task.
+func chainTrees(depth int, flatten bool) map[string]*Y {
+	files := map[string]*Y{}
+	name := func(i int) string {
+		if i == 0 {
+			return "Taskfile.yml"
+		}
+		return fmt.Sprintf("l%d.yml", i)
+	}
+	for i := 0; i <= depth; i++ {
+		kvs := []KV{P("version", Str("3"))}
+		if i < depth {
+			var inc *Y = Str(name(i + 1))
+			if flatten {
+				inc = Map(P("taskfile", Str(name(i+1))), P("flatten", Bool(true)))
+			}
+			kvs = append(kvs, P("includes", Map(P("n", inc))))
+		}
+		kvs = append(kvs, P("tasks", Map(P(fmt.Sprintf("t%d", i), Map(P("cmds", Seq(Str("echo level"))))))))
+		files[name(i)] = Map(kvs...)
+	}
+	return files
+}
+
+// wideTrees: the root includes width siblings, each of which includes a file of its own
+// (and that one a leaf when nested is 2).
+func wideTrees(width, nested int) map[string]*Y {
+	files := map[string]*Y{}
+	var incs []KV
+	for i := 0; i < width; i++ {
+		s := fmt.Sprintf("s%d.yml", i)
+		incs = append(incs, P(fmt.Sprintf("s%d", i), Str(s)))
+		c := fmt.Sprintf("c%d.yml", i)
+		files[s] = Map(P("version", Str("3")), P("includes", Map(P("c", Str(c)))), P("tasks", Map(P("mid", Str("echo mid")))))
+		if nested >= 2 {
+			d := fmt.Sprintf("d%d.yml", i)
+			files[c] = Map(P("version", Str("3")), P("includes", Map(P("d", Str(d)))), P("tasks", Map(P("child", Str("echo child")))))
+			files[d] = Map(P("version", Str("3")), P("tasks", Map(P("leaf", Str("echo leaf")))))
+		} else {
+			files[c] = Map(P("version", Str("3")), P("tasks", Map(P("leaf", Str("echo leaf")))))
+		}
+	}
+	files["Taskfile.yml"] = Map(P("version", Str("3")), P("includes", Map(incs...)), P("tasks", Map(P("root", Str("echo root")))))
+	return files
+}
+
+// optionDoc: an include whose options name things that exist in the included file
+// (excludes: of existing tasks, default among them; aliases; internal; dir; vars).
+func optionTrees(flatten bool, excludes []string, aliases bool, internal bool, depth2 bool, rootHasNs bool) map[string]*Y {
+	inc := Map(
+		P("version", Str("3")),
+		P("vars", Map(P("IV", Str("inc")))),
+		P("tasks", Map(
+			P("default", Map(P("cmds", Seq(Str("echo default"), Map(P("task", Str("hello"))))), P("aliases", Seq(Str("d"))))),
+			P("hello", Map(P("cmds", Seq(Str("echo hello"))), P("deps", Seq(Str("other"))))),
+			P("other", Str("echo other")),
+		)),
+	)
+	opts := []KV{P("taskfile", Str("inc1.yml"))}
+	if flatten {
+		opts = append(opts, P("flatten", Bool(true)))
+	}
+	if excludes != nil {
+		var xs []*Y
+		for _, e := range excludes {
+			xs = append(xs, Str(e))
+		}
+		opts = append(opts, P("excludes", Seq(xs...)))
+	}
+	if aliases {
+		opts = append(opts, P("aliases", Seq(Str("al"), Str("al2"))))
+	}
+	if internal {
+		opts = append(opts, P("internal", Bool(true)))
+	}
+	opts = append(opts, P("vars", Map(P("OV", Str("1")))))
+	rootTasks := []KV{P("root", Str("echo root"))}
+	if rootHasNs {
+		rootTasks = append(rootTasks, P("a", Str("echo shadows the namespace")))
+	}
+	if !depth2 {
+		return map[string]*Y{
+			"Taskfile.yml": Map(P("version", Str("3")), P("includes", Map(P("a", Map(opts...)))), P("tasks", Map(rootTasks...))),
+			"inc1.yml":     inc}
+	}
+	return map[string]*Y{
+		"Taskfile.yml": Map(P("version", Str("3")), P("includes", Map(P("m", Str("mid.yml")))), P("tasks", Map(rootTasks...))),
+		"mid.yml":      Map(P("version", Str("3")), P("includes", Map(P("a", Map(opts...)))), P("tasks", Map(P("default", Str("echo mid default"))))),
+		"inc1.yml":     inc}
 }
